@@ -233,6 +233,20 @@ func runTx(prop string, args []string) {
 					default:
 						stats["warm:fresh"]++
 					}
+					// the start set is reached through a short random history first (proposals accepted and reverted, direct
+					// sets), then pinned with a synchronise: by C01 the model's state for the set does not depend on it
+					for w := p.intn(12); w > 0; w-- {
+						j := p.intn(n)
+						switch p.intn(4) {
+						case 0:
+							c.apply(catchOp{Op: "TR", I: j})
+						case 1:
+							c.apply(catchOp{Op: "SET", I: j, B: p.chance(0.5)})
+						default:
+							c.apply(catchOp{Op: "TA", I: j})
+						}
+						stats["history_ops_before_start_set"]++
+					}
 					c.apply(catchOp{Op: "SYNC", Bits: bits})
 					before := c.obs()
 					attrsBefore := c.allAttrs()
